@@ -80,20 +80,57 @@ func (b *Uint32SizedArray) Unmarshal(r io.Reader) error {
 	return readSizedArray(r, &size, &b.Data)
 }
 
-func makeSized[T any](size any) ([]T, error) {
+// maxPrealloc is the most memory reserved on the strength of a declared size alone. Sizes are read
+// from untrusted input: beyond this many bytes a buffer only grows as fast as the reader delivers.
+const maxPrealloc = 4096
+
+// sizeValue returns the value of a size prefix that was read into a *byte or a *uint32.
+func sizeValue(size any) (uint32, error) {
 	switch s := size.(type) {
 	case *byte:
-		if *s == 0 {
-			return nil, nil
-		}
-		return make([]T, *s), nil
+		return uint32(*s), nil
 	case *uint32:
-		if *s == 0 {
-			return nil, nil
-		}
-		return make([]T, *s), nil
+		return *s, nil
 	default:
-		return nil, fmt.Errorf("unsupported array size type %T", size)
+		return 0, fmt.Errorf("unsupported array size type %T", size)
+	}
+}
+
+// readExact reads exactly size bytes from r and returns them with the number of bytes read. The
+// error is io.EOF if there were no bytes to read and io.ErrUnexpectedEOF if there were fewer than
+// size. The buffer starts at no more than maxPrealloc bytes and is doubled only once it has been
+// filled, so the memory used is proportional to the data read, not to the declared size. A size of
+// 0 reads nothing and yields nil.
+func readExact(r io.Reader, size uint32) ([]byte, int, error) {
+	if size == 0 {
+		return nil, 0, nil
+	}
+	want := uint64(size)
+	capacity := want
+	if capacity > maxPrealloc {
+		capacity = maxPrealloc
+	}
+	buf := make([]byte, capacity)
+	read := 0
+	for {
+		n, err := io.ReadFull(r, buf[read:])
+		read += n
+		if err == io.EOF && read > 0 {
+			err = io.ErrUnexpectedEOF
+		}
+		if err != nil {
+			return nil, read, err
+		}
+		if uint64(read) == want {
+			return buf, read, nil
+		}
+		capacity = 2 * uint64(len(buf))
+		if capacity > want {
+			capacity = want
+		}
+		grown := make([]byte, capacity)
+		copy(grown, buf)
+		buf = grown
 	}
 }
 
@@ -132,16 +169,13 @@ func readSizedArray(r io.Reader, size any, data *[]byte) error {
 	if err := binary.Read(r, binary.LittleEndian, size); err != nil {
 		return fmt.Errorf("failed to read array size as %T: %w", size, err)
 	}
-	result, err := makeSized[byte](size)
+	n, err := sizeValue(size)
 	if err != nil {
 		return err
 	}
-	// A size of 0 reads nothing; otherwise all the declared bytes must be there: io.EOF if none
-	// are, io.ErrUnexpectedEOF if only some are.
-	if len(result) > 0 {
-		if _, err := io.ReadFull(r, result); err != nil {
-			return err
-		}
+	result, _, err := readExact(r, n)
+	if err != nil {
+		return err
 	}
 	*data = result
 	return nil
